@@ -44,7 +44,7 @@ TNext ==
        ELSE IF skp THEN UNCHANGED <<s, out, skp, nsteps, saved>>
        ELSE IF "op" \notin DOMAIN e THEN skp' = TRUE /\ UNCHANGED <<s, out, nsteps, saved>>
        ELSE IF e.ev = "skip"
-            THEN /\ (Enabled(s, e.op) => PrintT(<<"DRIFT", l, "harness skipped an operation the model enables", ToJson(e)>>))
+            THEN /\ (IF Enabled(s, e.op) THEN PrintT(<<"DRIFT", l, "harness skipped an operation the model enables", ToJson(e)>>) ELSE TRUE)
                  /\ UNCHANGED <<s, out, skp, nsteps, saved>>
        ELSE IF ~Enabled(s, e.op)
             THEN /\ PrintT(<<"DRIFT", l, "operation not enabled in the model", ToJson(e), s>>)
